@@ -91,20 +91,20 @@ fn dispatch(id: &str, quick: bool, seed: u64) -> Option<(Outcome, u64)> {
     if !quick && !o.failed() {
         // coverage-guided campaign on the libFuzzer target that decodes into the same case type (thorough tier only)
         let camp = match id {
-            "C01" | "C02" | "C03" => Some(("adsr_ops", 150_000u64, 600usize)),
-            "C04" | "C05" | "C18" => Some(("midi_model", 300_000, 1200)),
-            "C06" => Some(("midi_stream", 150_000, 600)),
-            "C07" | "C08" | "C09" | "C19" => Some(("quant_ops", 300_000, 1200)),
-            "C13" => Some(("glide_ops", 100_000, 400)),
-            "C15" | "C16" => Some(("ribbon_ops", 20_000, 200)),
-            "C17" => Some(("api_any", 200_000, 1500)),
+            "C01" | "C02" | "C03" => Some(("adsr_ops", 20_000u64, 400usize)),
+            "C04" | "C05" | "C18" => Some(("midi_model", 100_000, 1200)),
+            "C06" => Some(("midi_stream", 80_000, 600)),
+            "C07" | "C08" | "C09" | "C19" => Some(("quant_ops", 100_000, 1200)),
+            "C13" => Some(("glide_ops", 30_000, 400)),
+            "C15" | "C16" => Some(("ribbon_ops", 5_000, 200)),
+            "C17" => Some(("api_any", 50_000, 1500)),
             _ => None,
         };
         if let Some((target, runs, max_len)) = camp {
             let prop: &'static str = Box::leak(id.to_string().into_boxed_str());
-            let c = fuzz::Campaign { target, prop, runs_per_proc: runs, procs: 8, max_len };
+            let c = fuzz::Campaign { target, prop, runs_per_proc: runs, procs: 16, max_len };
             let part = fuzz::campaign(&c, seed);
-            o.rule.push_str(&format!(" | thorough tier adds a libFuzzer campaign on target `{}` (8 processes x {} executions, fresh corpus seeded with random and hand-made inputs, -len_control=0, only this property's oracle armed); crash artifacts are re-decoded and re-judged in-process", target, runs));
+            o.rule.push_str(&format!(" | thorough tier adds a libFuzzer campaign on target `{}` (16 processes x {} executions, fresh corpus seeded with random and hand-made inputs, -len_control=0, only this property's oracle armed); crash artifacts are re-decoded and re-judged in-process", target, runs));
             o.absorb(part);
         }
     }
